@@ -1,14 +1,1 @@
-use proptest::strategy::{Strategy, ValueTree};
-use proptest::test_runner::{Config, RngSeed, TestRunner};
-use verif::gen::lzma2::*;
-use verif::refmodel::lzma2::write_lzma2;
-fn main() {
-    let mut runner = TestRunner::new(Config { rng_seed: RngSeed::Fixed(1), failure_persistence: None, ..Config::default() });
-    let s = exact_max_packed_chunk();
-    for _ in 0..6 {
-        let v = s.new_tree(&mut runner).unwrap().current();
-        let c = concretize_chunks(&[v], L2Cfg { max_total: 400_000, max_chunk_ops: 90_000 });
-        let e = write_lzma2(&c, false).unwrap();
-        println!("chunks {} payload {} unpacked {}", c.len(), e.layout[0].payload_len, e.layout[0].unpacked);
-    }
-}
+fn main(){}
